@@ -12,6 +12,7 @@
    callers, any interleaving of their steps with Watch, the peer and the
    application. *)
 From V Require Import Model.Base Model.Pdu Gen.PduLayouts Model.ConnLTS Model.ConnRun Proofs.ConnBase Proofs.ConnC14 Proofs.ConnC16 Proofs.ConnC05.
+From V Require Import Proofs.ConnSched.
 Open Scope N_scope.
 
 (* Whatever reaches a Submit call — the value in its channel, the value it
@@ -102,9 +103,28 @@ Example C05_example :
             app s = [(5, 99%Z)] /\ pending s 7%Z = None /\ sub s 0%nat /\ answered s 7%Z.
 Proof. exact ereach_example. Qed.
 
+(* The tie between this model and the implementation.  Every forced schedule the
+   harness runs on the real Conn is evaluated as [sched_admits fixed auto groups
+   snapshots final] (C05: [sched_env_admits]: additionally within the hypotheses of C05).
+   What a [true] means: SOME trace of [step] from [init] — one resolution of the
+   internal choices no property decides (R1 a select with two ready cases, R2 the
+   order in which waiting senders reach the transport, R3 a hand-over racing
+   Done()) — ends in a state showing exactly what the implementation showed
+   (results of all calls, PDU() deliveries, every transport Write with its octets,
+   Watch / Done() / keep-alive).  The search that finds the trace is not trusted. *)
+Theorem C05_tie_sound : forall v auto groups snaps final,
+  sched_admits v auto groups snaps final = true ->
+  exists tr s, run v init tr = Some s /\ reachable v s /\ beq_obs (observe s) final = true.
+Proof. exact sched_admits_sound. Qed.
+Theorem C05_tie_within_hypotheses : forall v auto groups snaps final,
+  sched_env_admits v auto groups snaps final = true ->
+  exists tr s s', run v init tr = Some s /\ erunb v init tr = Some s' /\ beq_obs (observe s) final = true.
+Proof. exact sched_env_admits_sound. Qed.
+
 Print Assumptions C05_own_response.
 Print Assumptions C05_no_leak.
 Print Assumptions C05_not_lost.
 Print Assumptions C05_returns.
 Print Assumptions C05_resp_pairs.
 Print Assumptions C05_legacy_refuted.
+Print Assumptions C05_tie_sound.
